@@ -1238,3 +1238,60 @@ Proof.
   intros [_ H]. specialize (H [] 1%N (lit "X") [(1%N, lit "X")] eq_refl) as [H _].
   specialize (H (fun x => x)). vm_compute in H. discriminate.
 Qed.
+
+(* ================================================================================================ *)
+(* I. the checks of sanity.py that autocorrect is meant to satisfy                                  *)
+(* ================================================================================================ *)
+(* sanity.orders: len(orders) = len(multiplicity); num_voters = sum(multiplicity.values());
+   num_unique_orders = len(orders); len(set(orders)) = len(orders)
+   sanity.metadata: num_alternatives = len(alternatives_name); len(set(names)) = num_alternatives *)
+Theorem ac_sanity_ord m0 lines i : alt_names m0 = [] -> OrdIO.ord_parse true false m0 lines = Ok i ->
+  List.length (OrdIO.o_orders i) = List.length (OrdIO.o_mult i) /\
+  num_voters (OrdIO.o_meta i) = sum_N (values (OrdIO.o_mult i)) /\
+  OrdIO.o_num_unique i = N.of_nat (List.length (OrdIO.o_orders i)) /\
+  NoDup (OrdIO.o_orders i) /\
+  num_alternatives (OrdIO.o_meta i) = N.of_nat (List.length (alt_names (OrdIO.o_meta i))) /\
+  NoDup (values (alt_names (OrdIO.o_meta i))).
+Proof.
+  intros H0 H. pose proof (ac_names_distinct_ord _ _ _ H0 H) as Hn.
+  destruct (ac_merge_ord _ _ _ H) as (Hnd & Ho & _ & Hk & Hm & _ & Hv & Hu & Ha).
+  split; [rewrite <- Hk; unfold keys; now rewrite map_length|].
+  split; [rewrite Hv, Hm; symmetry; apply (merge_fold_spec OrdIO.order_eqb order_eqb_eq)|].
+  split; [now rewrite Hu, Ho|]. repeat split; assumption.
+Qed.
+
+Theorem ac_sanity_cat m0 lines i : alt_names m0 = [] -> CatIO.cat_parse true false m0 lines = Ok i ->
+  List.length (CatIO.c_prefs i) = List.length (CatIO.c_mult i) /\
+  num_voters (CatIO.c_meta i) = sum_N (values (CatIO.c_mult i)) /\
+  CatIO.c_num_unique i = N.of_nat (List.length (CatIO.c_prefs i)) /\
+  NoDup (CatIO.c_prefs i) /\
+  num_alternatives (CatIO.c_meta i) = N.of_nat (List.length (alt_names (CatIO.c_meta i))) /\
+  NoDup (values (alt_names (CatIO.c_meta i))) /\
+  NoDup (values (CatIO.c_cat_names i)).
+Proof.
+  intros H0 H. destruct (ac_names_distinct_cat _ _ _ H0 H) as [Hn Hc].
+  destruct (ac_merge_cat _ _ _ H) as (Hnd & Ho & _ & Hk & Hm & _ & Hv & Hu & Ha).
+  split; [rewrite <- Hk; unfold keys; now rewrite map_length|].
+  split; [rewrite Hv, Hm; symmetry; apply (merge_fold_spec CatIO.ballot_eqb ballot_eqb_eq)|].
+  split; [now rewrite Hu, Ho|]. repeat split; assumption.
+Qed.
+
+(* ================================================================================================ *)
+(* J. the reservation is made by parse_lines, not by parse: the header loop run on its own          *)
+(* (reserved_names empty, as after OrdinalInstance().parse(lines, autocorrect=True)) still renames  *)
+(* a first occurrence                                                                               *)
+(* ================================================================================================ *)
+Definition direct_lines : list text :=
+  [lit "# ALTERNATIVE NAME 1: X"; lit "# ALTERNATIVE NAME 2: X"; lit "# ALTERNATIVE NAME 3: X__1"; lit "1: 1,2,3"].
+
+Theorem ac_direct_parse_refuted :
+  exists lines m nu rest,
+    OrdIO.header_loop true (meta0 (lit "soc"), 0%N) lines = Ok ((m, nu), rest) /\
+    raw_names alt_name_prefix lines = [(1, lit "X"); (2, lit "X"); (3, lit "X__1")]%N /\
+    alt_names m = [(1, lit "X"); (2, lit "X__1"); (3, lit "X__1__1")]%N.
+Proof.
+  exists direct_lines.
+  destruct (OrdIO.header_loop true (meta0 (lit "soc"), 0%N) direct_lines) as [[[m nu] rest]|e] eqn:E;
+    vm_compute in E; [|discriminate].
+  injection E as <- <- <-. do 3 eexists. split; [reflexivity|]. split; reflexivity.
+Qed.
